@@ -53,16 +53,7 @@ namespace ratio
                         }
                         else // we update the lower bound..
                             static_cast<atom_adaptation::arith_bounds *>(it->second)->lb = lb;
-                        if (xpr->get_type().get_name() == REAL_KEYWORD)
-                        { // we have a real variable..
-                            if (!slv.get_lra_theory().set_lb(slv.get_lra_theory().new_var(xpr->l), lb, adaptations.at(atm).sigma_xi))
-                            { // setting the lower bound caused a conflict..
-                                swap_conflict(slv.get_lra_theory());
-                                if (!backtrack_analyze_and_backjump())
-                                    throw execution_exception();
-                            }
-                        }
-                        delays = true;
+                        delays = true; // the new bound is imposed, with all the other adaptations, when the execution variable is assumed again..
                         dont_start.erase(at_atm);
                     }
             if (const auto ending_atms = e_atms.find(*pulses.cbegin()); ending_atms != e_atms.cend())
@@ -83,21 +74,14 @@ namespace ratio
                         }
                         else // we update the lower bound..
                             static_cast<atom_adaptation::arith_bounds *>(it->second)->lb = lb;
-                        if (xpr->get_type().get_name() == REAL_KEYWORD)
-                        { // we have a real variable..
-                            if (!slv.get_lra_theory().set_lb(slv.get_lra_theory().new_var(xpr->l), lb, adaptations.at(atm).sigma_xi))
-                            { // setting the lower bound caused a conflict..
-                                swap_conflict(slv.get_lra_theory());
-                                if (!backtrack_analyze_and_backjump())
-                                    throw execution_exception();
-                            }
-                        }
-                        delays = true;
+                        delays = true; // the new bound is imposed, with all the other adaptations, when the execution variable is assumed again..
                         dont_end.erase(at_atm);
                     }
 
             if (delays)
-            { // we have some delays: we propagate and remove new possible flaws..
+            { // we have some delays: we retract the execution variable (the adaptations must hold at its level, otherwise backjumping might lose them) and solve again..
+                while (slv.get_sat_core().value(xi) != Undefined && !slv.root_level())
+                    slv.get_sat_core().pop();
                 if (!slv.get_sat_core().propagate() || !slv.solve())
                     throw execution_exception();
                 goto manage_tick;
@@ -224,7 +208,12 @@ namespace ratio
         for (const auto &atm : atoms)
             cnfl.push_back(lit(atm->get_sigma(), false));
         // we backtrack to a level at which we can analyze the conflict..
-        if (!backtrack_analyze_and_backjump() || !slv.solve())
+        if (!backtrack_analyze_and_backjump())
+            throw execution_exception();
+        // we retract the execution variable: the adaptations are imposed again, at its level, when a new solution is found..
+        while (slv.get_sat_core().value(xi) != Undefined && !slv.root_level())
+            slv.get_sat_core().pop();
+        if (!slv.solve())
             throw execution_exception();
     }
 
@@ -255,17 +244,11 @@ namespace ratio
         {
         case False: // the plan can't be executed anymore..
             throw execution_exception();
-        case Undefined: // we enforce the xi variable..
+        case Undefined: // we enforce the xi variable and, with it, the adaptations: since they can move the plan (or be refused), we solve again..
             slv.take_decision(xi);
-            break;
-        }
-        switch (slv.get_sat_core().value(xi))
-        {
-        case False: // the plan can't be executed anymore..
-            throw execution_exception();
-        case Undefined: // we attempt to solve the problem again..
-            slv.solve();
-            break;
+            if (!slv.solve())
+                throw execution_exception();
+            return; // the nested call has already notified the new solution..
         }
         build_timelines();
     }
